@@ -44,7 +44,10 @@ def run(body, per_condition_timeout=120.0, per_path_timeout=60.0, max_iterations
         post: _ == True
         """
         PATHS[0] += 1
-        return body()
+        r = body()
+        if not sym.path_feasible():
+            raise sym.AssumptionInfeasible("path condition unsatisfiable at the end of the path (vacuous path)")
+        return r
 
     return _run(harness, per_condition_timeout, per_path_timeout, max_iterations)
 
